@@ -483,6 +483,10 @@ class Program:
                 more = inline.run(fn_jsons)
                 for k_, v_ in more.items():
                     self.inlined.setdefault(k_, []).extend(v_)
+            # a bool bound once from a pure computation is computed again in front of the reads that other events separate
+            # from it (sa/sink.py): a condition hoisted out of a loop is seen where it decides
+            from . import sink as _sink
+            self.sunk = _sink.run(fn_jsons)
         for j, crate in records:
                 if True:
                     k = j["kind"]
